@@ -11,6 +11,7 @@
   new public method makes it fail until it is modelled or listed as uncovered.
 -/
 import PsutilModel.Proofs.C03Front
+import PsutilModel.Proofs.C03Gone
 import PsutilModel.Model.C03Gen
 namespace Psutil.C03
 open Spec
@@ -383,5 +384,35 @@ example : (Fe.name (goodCfg true) w0.obj ⟨w0, vanishAt 1, noDeny⟩ {}).1 = .e
 example : (Fe.exe (goodCfg true) w0.obj ⟨w0, zombieFrom 0, noDeny⟩ {}).1 = .error (.zombie 105) := by decide
 /-- EPERM on the read: AccessDenied(105) -/
 example : (Fe.name (goodCfg true) w0.obj ⟨w0, alwaysAlive, denyAt 1 .EPERM⟩ {}).1 = .error (.ad 105) := by decide
+
+/-! ## once the process is gone, every query raises NoSuchProcess -/
+
+/-- every as_dict name is either covered by `C03_gone_is_NSP` or a documented exemption -/
+theorem C03_gone_coverage : ∀ nm ∈ asDictNames, nm ∈ goneCovered ∨ nm ∈ goneExempt := by decide
+
+/-- **goneForever**: the process is gone before the call starts (every path below /proc/<pid>
+    gives ENOENT, native calls ESRCH, nothing is refused) ⇒ each covered query on the object
+    raises NoSuchProcess carrying its pid -/
+theorem C03_gone_is_NSP (o : Obj) : ∀ nm ∈ goneCovered, ∃ m, Fe.method cfg o nm = some m ∧
+    ∀ c, Adm c → GoneFromStart c → o.pid = c.w.target → IsNSP o.pid (m c {}).1 := by
+  intro nm hnm
+  rw [cfg_good]
+  obtain ⟨m, hm, hg⟩ := gone_all cfg.hasRollup o nm hnm
+  refine ⟨m, hm, fun c ha hgs hp => ?_⟩
+  obtain ⟨s', hr, _⟩ := hg c {} ha (hp ▸ pgone_of_goneFromStart hgs) rfl
+  rw [hr]; simp [IsNSP]
+
+theorem C03_gone_rlimit (o : Obj) (h0 : o.pid ≠ 0) (c : Ctx) (ha : Adm c) (hgs : GoneFromStart c)
+    (hp : o.pid = c.w.target) : IsNSP o.pid (Plat.rlimit cfg o.pid c {}).1 := by
+  rw [cfg_good]
+  obtain ⟨s', hr, _⟩ := rlimit_gone cfg.hasRollup o.pid h0 c {} ha (hp ▸ pgone_of_goneFromStart hgs) rfl
+  rw [hr]; simp [IsNSP]
+
+/-- the hypotheses of `C03_gone_is_NSP` are satisfiable, and the conclusion is what the model computes -/
+example : Adm ⟨w0, vanishAt 0, noDeny⟩ ∧ GoneFromStart ⟨w0, vanishAt 0, noDeny⟩ :=
+  ⟨C03_plans_admissible w0 ⟨⟨101, 1, 50, false, false, [(101, false)], [], false⟩, by simp [w0], by simp [w0]⟩
+      (PropertyPlan.vanish 0),
+   fun _ => rfl, fun _ => rfl⟩
+example : (Fe.exe (goodCfg true) w0.obj ⟨w0, vanishAt 0, noDeny⟩ {}).1 = .error (.nsp 105) := by decide
 
 end Psutil.C03
